@@ -151,3 +151,52 @@ Proof.
                 (fun incl sc rq => G_buildLogoutResponse_is_model s cfg now sc rq incl id))).
 Qed.
 Print Assumptions C15_source_builders_are_the_model.
+
+(* The serialise -> parse round trip through the REAL reader model (XmlTok.v: encoding/xml's RawToken with the name tables,
+   entity expansion, end-of-line handling, UTF-8 / Char-range checks; etree's readFrom with attribute de-duplication),
+   generalising C15_scan_write_tokens (whose scanner accepts any delimiter-free name and leaves values escaped).
+   Premise [xml_wf]: an element tree of elements and character data whose names are names for the real reader and split
+   back into (space, tag), and whose values are valid UTF-8 in the XML Char range without U+000D (F8).
+   [normalise]: adjacent character data merged, empty character data dropped, duplicated attributes collapsed. *)
+From V Require Import XmlTok P_XmlTok.
+Theorem C15_written_document_reads_back : forall sp t a k,
+  xml_wf (Elem sp t a k) = true ->
+  raw_tokens (etree_write (Elem sp t a k)) = Ok (rtoks (Elem sp t a k)) /\
+  read_doc true (etree_write (Elem sp t a k)) = Ok [normalise (Elem sp t a k)] /\
+  read_tree (etree_write (Elem sp t a k)) = Ok (normalise (Elem sp t a k)).
+Proof. exact written_document_reads_back. Qed.
+Print Assumptions C15_written_document_reads_back.
+
+(* the three builders: their element and attribute names pass the real reader's checks; the premise that remains is about
+   the VALUES (for the two logout messages spelled out: [wf_logout_request], [wf_logout_response]) *)
+Theorem C15_builders_read_back : forall cfg id now,
+  (xml_wf (build_authn_request cfg id now) = true ->
+   read_tree (etree_write (build_authn_request cfg id now)) = Ok (normalise (build_authn_request cfg id now))) /\
+  (forall nid si, logout_request_values_ok cfg id now nid si = true ->
+   read_tree (etree_write (build_logout_request cfg id now nid si)) = Ok (normalise (build_logout_request cfg id now nid si))) /\
+  (forall st rq, logout_response_values_ok cfg id now st rq = true ->
+   read_tree (etree_write (build_logout_response cfg id now st rq)) = Ok (normalise (build_logout_response cfg id now st rq))).
+Proof. exact builders_read_back. Qed.
+Print Assumptions C15_builders_read_back.
+
+(* premises satisfiable on a tree that is not its own normal form (duplicated attribute, split and empty character data,
+   markup characters and a line feed in values) *)
+Theorem C15_written_document_reads_back_example :
+  xml_wf ex_tree = true /\ read_tree (etree_write ex_tree) = Ok (normalise ex_tree) /\ normalise ex_tree <> ex_tree.
+Proof. exact ex_tree_round_trip_short. Qed.
+Print Assumptions C15_written_document_reads_back_example.
+
+(* the premises cannot be dropped: U+000D is read back as U+000A by the real reader (F8), and a name the lax scanner of
+   C15_scan_write_tokens admits is refused by it *)
+Theorem C15_written_document_cr_refuted :
+  xml_wf cr_tree = false /\
+  read_tree (etree_write cr_tree) = Ok (Elem "" "a" [ {| at_space := ""; at_key := "b"; at_val := "x" ++ lf1 ++ "y" |} ] [Text ("u" ++ lf1 ++ "v")]) /\
+  read_tree (etree_write cr_tree) <> Ok (normalise cr_tree).
+Proof. exact cr_not_read_back. Qed.
+Print Assumptions C15_written_document_cr_refuted.
+
+Theorem C15_lax_name_refuted :
+  names_ok (Elem "" "1a" [] []) = true /\ xml_wf (Elem "" "1a" [] []) = false /\
+  (exists e, read_tree (etree_write (Elem "" "1a" [] [])) = Err e).
+Proof. exact lax_name_not_read_back. Qed.
+Print Assumptions C15_lax_name_refuted.
